@@ -330,7 +330,7 @@ package channels
 // ---------------------------------------------------------------------------------------------
 // Accounting (C07) and data limits (C08): FSM actions, caches, progress events
 
-//@ lemma [totals-max] {C07}: forall s State, n int64 ::
+//@ lemma [totals-max] {C07,C10,C01}: forall s State, n int64 ::
 //@     step(s, DataReceived, n).ReceivedBlocksTotal == ((applied(s, DataReceived, n) && n > s.ReceivedBlocksTotal) ? n : s.ReceivedBlocksTotal) &&
 //@     step(s, DataSent, n).SentBlocksTotal == ((applied(s, DataSent, n) && n > s.SentBlocksTotal) ? n : s.SentBlocksTotal) &&
 //@     step(s, DataQueued, n).QueuedBlocksTotal == ((applied(s, DataQueued, n) && n > s.QueuedBlocksTotal) ? n : s.QueuedBlocksTotal)
@@ -348,7 +348,7 @@ package channels
 //@     (E != DataReceivedProgress ==> step(s, E).Received == s.Received) && (E != DataSentProgress ==> step(s, E).Sent == s.Sent) &&
 //@     (E != DataQueuedProgress ==> step(s, E).Queued == s.Queued) && (E != DataReceived ==> step(s, E).ReceivedBlocksTotal == s.ReceivedBlocksTotal) &&
 //@     (E != DataSent ==> step(s, E).SentBlocksTotal == s.SentBlocksTotal) && (E != DataQueued ==> step(s, E).QueuedBlocksTotal == s.QueuedBlocksTotal)
-//@ lemma [totals-never-decrease] {C07}: foreach E in (*) :: forall s State ::
+//@ lemma [totals-never-decrease] {C07,C10,C01}: foreach E in (*) :: forall s State ::
 //@     step(s, E).ReceivedBlocksTotal >= s.ReceivedBlocksTotal && step(s, E).SentBlocksTotal >= s.SentBlocksTotal &&
 //@     step(s, E).QueuedBlocksTotal >= s.QueuedBlocksTotal
 //@ lemma [limit-events] {C08}: forall s State, l uint64 ::
